@@ -56,6 +56,8 @@ out.append("| change | property | needs to manifest | detected by (rc, violation
 for mp in sorted(glob.glob(os.path.join(V, "seeded", "*", "meta.json"))):
     m = json.load(open(mp))
     det = "; ".join("%s: rc=%s, %s" % (k, v.get("rc"), v.get("violations")) for k, v in sorted(m.get("detected_by", {}).items())) or "not run"
+    if m.get("note"):
+        det += " — " + m["note"]
     out.append("| %s | %s | %s | %s |\n" % (m["name"], m["property"], (m.get("needs_to_manifest") or "").replace("|", "\\|")[:220], det))
 open(os.path.join(V, "DESIGN.md"), "w").write("".join(out))
 print("DESIGN.md written:", sum(len(x) for x in out), "bytes")
